@@ -51,7 +51,7 @@ class C16(core.Check):
                                        'width:24', 'width:32', 'every-line-length-1..40', 'fmt:listing', 'fmt:hex', 'fmt:intel_hex', 'fmt:minhex',
                                        'image-fill:nonzero', 'width:not-a-multiple-of-4', 'zero-length-at-gap-edge', 'gap:align', 'gap:memzone', 'gap:muted', 'gap:zone-org',
                                        'statement-longer-than-96-bytes', 'long-statement:fill', 'long-statement:cstr',
-                                       'stale-longer-output-present']}
+                                       'stale-longer-output-present', 'image-window-starts-inside-a-statement']}
     required_buckets['every-line-length-1..40'] = 2
     required_buckets['several-statements-per-line'] = 3
 
@@ -85,6 +85,16 @@ class C16(core.Check):
         if fillv:
             argv_extra = list(argv_extra) + ['-f', str(fillv)]
             tags.add('image-fill:nonzero')
+        win_s = 0
+        if self._n % 5 == 2 and M:
+            # an image window that begins in the middle of a statement: the image shows the statement's remaining bytes at
+            # the window start, and the formats still describe the whole map
+            multi = [l for l in res.byte_lines if len(l['bytes']) // 2 >= 2 and not l.get('muted') and l['addr'] + 1 <= max(M)]
+            if multi:
+                l_ = multi[self._n % len(multi)]
+                win_s = l_['addr'] + 1 + (self._n // 5) % (len(l_['bytes']) // 2 - 1)
+                argv_extra = list(argv_extra) + ['-s', str(win_s)]
+                tags.add('image-window-starts-inside-a-statement')
         if self._n % 4 == 1:
             # an older, longer output of an earlier run is already there: the new output replaces it completely
             fl = dict(fl)
@@ -95,7 +105,7 @@ class C16(core.Check):
                                                '--pretty-print-output', 'pp.txt'] + argv_extra,
                          'probes': ['steps'], 'step_limit': 4_000_000})
         return {'runs': runs, 'meta': {'M': {str(k): v for k, v in M.items()}, 'stm': stm, 'origin': origin,
-                                       'image': (layout.image(M, 0, None, fillv) or b'').hex()},
+                                       'image': (layout.image(M, win_s, None, fillv) or b'').hex()},
                 'tags': sorted(tags)}
 
     def length_cases(self):
